@@ -1,9 +1,11 @@
 package main
 
 import (
+	"bytes"
 	"context"
 	"errors"
 	"fmt"
+	"google.golang.org/protobuf/types/known/sourcecontextpb"
 	"io"
 	"net/http"
 	"net/http/httptest"
@@ -101,6 +103,14 @@ func hreqOp(c *Ctx, op string) {
 					got = append(got, append([]byte{}, (*s.Msg())...))
 				}
 				endErr = s.Err()
+				// a handler may well ask once more: the answer stays the same
+				if s.Receive() {
+					got = append(got, append([]byte("again:"), (*s.Msg())...))
+				}
+				if again := s.Err(); (again == nil) != (endErr == nil) {
+					endErr = again
+					got = append(got, []byte("end-changed"))
+				}
 				if endErr != nil {
 					return nil, endErr
 				}
@@ -122,10 +132,16 @@ func hreqOp(c *Ctx, op string) {
 				}
 			}, opts...)
 		}
-		body := &scriptReader{chunks: segment(append([]byte(nil), flat...), parseCuts(a["seg"])), tail: tailError(a["tail"])}
+		body := &scriptReader{chunks: segment(append([]byte(nil), flat...), parseCuts(a["seg"])), tail: tailError(a["tail"]), withData: a["wd"] == "1"}
 		req := httptest.NewRequest(http.MethodPost, "/s/m", body)
+		if a["cl"] == "1" {
+			req.ContentLength = int64(len(flat)) // a peer that announces the length of the whole body
+		}
 		req.ProtoMajor, req.ProtoMinor, req.Proto = 2, 0, "HTTP/2.0"
 		req.Header["Content-Type"] = []string{ctFor(proto, kind, "raw")}
+		if a["ct2"] == "1" {
+			req.Header["Content-Type"] = append(req.Header["Content-Type"], "text/x-second-value")
+		}
 		encH, accH := encHeaderFor(proto, kind)
 		if sent != "" {
 			req.Header[encH] = []string{sent}
@@ -142,6 +158,9 @@ func hreqOp(c *Ctx, op string) {
 		}
 		rec := httptest.NewRecorder()
 		h.ServeHTTP(rec, req)
+		if cts := rec.Result().Header.Values("Content-Type"); len(cts) > 1 {
+			c.Fail("req-malformed-response", op, strings.Join(cts, " | "), "the response carries more than one Content-Type")
+		}
 		code, note := responseErrorCode(proto, kind, rec)
 		if strings.TrimSpace(note) != "" {
 			c.Fail("req-malformed-response", op, note, "the response to a (possibly malformed) request is not well-formed for the selected protocol")
@@ -280,11 +299,63 @@ func reqOracle(c *Ctx, op string, a map[string]string, flat []byte, got [][]byte
 	}
 }
 
+// jsonStrictProbe (oracle only, the library's own JSON codec): a JSON payload with a member the
+// request type does not define is an undecodable payload - invalid_argument, user code not run.
+func jsonStrictProbe(c *Ctx) {
+	for _, tc := range []struct{ ct, body string }{
+		{"application/json", `{"fileName":"x","bogus":1}`},
+		{"application/json", `{"fileNam":"x"}`},
+		{"application/grpc-web+json", string(frame(0, []byte(`{"fileName":"x","bogus":1}`)))},
+		{"application/connect+json", string(frame(0, []byte(`{"bogus":true}`)))},
+	} {
+		runs := 0
+		var h http.Handler
+		if tc.ct == "application/connect+json" {
+			h = connect.NewClientStreamHandler("/s/m", func(ctx context.Context, s *connect.ClientStream[sourcecontextpb.SourceContext]) (*connect.Response[sourcecontextpb.SourceContext], error) {
+				for s.Receive() {
+					runs++ // a delivered message
+				}
+				if s.Err() != nil {
+					return nil, s.Err()
+				}
+				return connect.NewResponse(&sourcecontextpb.SourceContext{}), nil
+			})
+		} else {
+			h = connect.NewUnaryHandler("/s/m", func(ctx context.Context, r *connect.Request[sourcecontextpb.SourceContext]) (*connect.Response[sourcecontextpb.SourceContext], error) {
+				runs++
+				return connect.NewResponse(&sourcecontextpb.SourceContext{}), nil
+			})
+		}
+		desc := fmt.Sprintf("Content-Type %s, JSON payload with an unknown member: %q", tc.ct, tc.body)
+		got := safely(func() string {
+			req := httptest.NewRequest(http.MethodPost, "/s/m", strings.NewReader(tc.body))
+			req.ProtoMajor, req.ProtoMinor, req.Proto = 2, 0, "HTTP/2.0"
+			req.Header.Set("Content-Type", tc.ct)
+			rec := httptest.NewRecorder()
+			h.ServeHTTP(rec, req)
+			proto, kind := "connect", "unary"
+			switch tc.ct {
+			case "application/grpc-web+json":
+				proto = "grpcweb"
+			case "application/connect+json":
+				kind = "client"
+			}
+			code, _ := responseErrorCode(proto, kind, rec)
+			return fmt.Sprintf("delivered=%d code=%d", runs, code)
+		})
+		c.Count("json-strict-probe")
+		if got != "delivered=0 code=3" {
+			c.Fail("req-bad-message-delivered", desc, got, "a payload that does not decode into the request type must be rejected as invalid_argument without reaching user code")
+		}
+	}
+}
+
 func streamReq(c *Ctx) {
 	if replayOp != "" {
 		hreqOp(c, replayOp)
 		return
 	}
+	jsonStrictProbe(c)
 	r := c.Rng
 	protos := []string{"connect", "grpc", "grpcweb"}
 	kinds := []string{"client", "bidi", "unary"}
@@ -358,11 +429,29 @@ func streamReq(c *Ctx) {
 					}
 				}
 				cuts := randomCuts(r, len(flat), r.Intn(4))
+				flags := ""
+				if r.Chance(35) && tail == "eof" {
+					// (with a failing transport, whether a body that is also over the limit is reported as
+					// too large or as unreadable depends on when the failure is reported: both are errors,
+					// the model does not choose)
+					flags += " wd=1"
+				}
+				if r.Chance(35) {
+					flags += " cl=1"
+				}
+				if r.Chance(20) {
+					flags += " ct2=1"
+				}
+				if proto == "connect" && kind == "unary" && max > 0 && r.Chance(50) {
+					// bodies of exactly max-1, max, max+1 bytes
+					flat = bytes.Repeat([]byte{7}, max-1+r.Intn(3))
+					sent, comp = "", false
+				}
 				acc := ""
 				if r.Chance(40) {
 					acc = []string{"rle", "gzip", "rle,gzip", "gzip, rle", "zz"}[r.Intn(5)]
 				}
-				hreqOp(c, fmt.Sprintf("hreq proto=%s kind=%s max=%d sent=%s tmo=%s flat=%s tail=%s seg=%s acc=%s", proto, kind, max, hx([]byte(sent)), hx([]byte(tmo)), hx(flat), tail, showCuts(cuts), hx([]byte(acc))))
+				hreqOp(c, fmt.Sprintf("hreq proto=%s kind=%s max=%d sent=%s tmo=%s flat=%s tail=%s seg=%s acc=%s", proto, kind, max, hx([]byte(sent)), hx([]byte(tmo)), hx(flat), tail, showCuts(cuts), hx([]byte(acc)))+flags)
 			}
 		}
 	}
